@@ -137,14 +137,27 @@ theorem rel_gen {s : STerm} {t : MTerm} (h : Rel e cn k0 s t) : Rel e cn' k0 (ge
 
 /-! ### What the application may do between lifecycle calls -/
 
-/-- Tokens a frame may contain as far as the mode terminal is concerned: everything the renderer
-    writes (`C07.render_gated` + no `other` token) — cursor visibility and synchronized-update brackets are
-    the only private modes. -/
+/-- `Tok.other` sequences the mode terminal does not react to (titles, bell, clipboard, notifications,
+    graphics, queries …): anything but the keypad modes, kitty keyboard push/pop and OSC 176. -/
+def otherNeutral (raw : String) : Bool :=
+  decide (raw.toList ≠ "1b3d".toList) && decide (raw.toList ≠ "1b3e".toList) && decide (raw.toList ≠ "1b5b3c75".toList) &&
+  !(startsWith raw "1b5b3e" && endsWith raw "75") && !startsWith raw "1b5d3137363b"
+
+/-- Tokens a frame — or any other application output between lifecycle calls (SetTitle, Bell,
+    ClipboardPush, Notify, graphics) — may contain as far as the mode terminal is concerned: everything the renderer
+    writes (`C07.render_gated`: cursor visibility and synchronized-update brackets are the only private modes) and
+    neutral `other` sequences. -/
 def frameTok : Tok → Bool
   | .decset n => n == 25 || n == 2026
   | .decrst n => n == 25 || n == 2026
-  | .other _ => false
+  | .other raw => otherNeutral raw
   | _ => true
+
+theorem other_neutral (t : MTerm) (raw : String) (h : otherNeutral raw = true) : VaxisModel.Spec.ModeTerm.other t raw = t := by
+  simp only [otherNeutral, Bool.and_eq_true, decide_eq_true_eq, Bool.not_eq_true', Bool.and_eq_false_iff] at h
+  obtain ⟨⟨⟨⟨h1, h2⟩, h3⟩, h4⟩, h5⟩ := h
+  unfold VaxisModel.Spec.ModeTerm.other
+  rw [if_neg h1, if_neg h2, if_neg h3, if_neg (by intro ⟨a, b⟩; rcases h4 with h4 | h4 <;> simp_all), if_neg (by simp [h5])]
 
 /-- What a frame token cannot change. -/
 structure Keeps (t t' : MTerm) : Prop where
@@ -162,7 +175,9 @@ theorem keeps_refl (t : MTerm) : Keeps t t := by constructor <;> intros <;> rfl
 
 theorem keeps_step (t : MTerm) (k : Tok) (hk : frameTok k = true) : Keeps t (step t k) := by
   cases k with
-  | other r => simp [frameTok] at hk
+  | other r =>
+    simp only [frameTok] at hk
+    simp only [step, other_neutral t r hk]; exact keeps_refl t
   | decset n =>
     simp only [frameTok, Bool.or_eq_true, beq_iff_eq] at hk
     rcases hk with rfl | rfl
@@ -262,7 +277,7 @@ theorem rel_gen_setAppId {s : STerm} {t : MTerm} (id : String) (h : Rel e cn k0 
 /-! ### Sessions -/
 
 inductive Op where
-  | frame (toks : List Tok)            -- one `Render()`: what it wrote
+  | frame (toks : List Tok)            -- one `Render()` (or SetTitle / Bell / ClipboardPush / Notify / graphics): what it wrote
   | cursor (cn cl : CursorState)       -- ShowCursor / HideCursor / the renderer's bookkeeping: any cursor records
   | setAppId (id : String)             -- `SetAppID(id)`: written directly
   | suspend
